@@ -72,3 +72,57 @@ MUTANTS = [
     ("_init_options: the first value seen for an option slot wins", C, "                    else:\n                        option_map[key] = value", "                    else:\n                        option_map.setdefault(key, value)", "refute", "_init_options"),
     ("_init_options: category options stored under the default category", C, "                        category_map[cat] = {key: value}", "                        category_map[None] = {key: value}", "refute", "_init_options"),
 ]
+
+
+# ---- _CryptConfig.iter_config: the inverse direction -- every stored slot is exported exactly once, with its value -------------
+def _ic_setup(it, args):
+    from pyvc.values import SList
+    v = {n: SStr(z3.String(n), "str") for n in ("d0", "d1", "so0", "so1", "so2")}
+    empty = SList([])  # an explicitly configured EMPTY list (e.g. admin__context__deprecated = []) is a value like any other
+    dep_all = SList([SStr(z3.String("dep0"), "str")])
+    self = args["self"]
+    self.fields.update({
+        "_context_options": SDict({"default": SDict({None: v["d0"], "admin": v["d1"]}), "deprecated": SDict({None: dep_all, "admin": empty})}),
+        "_scheme_options": SDict({"des_crypt": SDict({None: SDict({"min_rounds": v["so0"], "vary_rounds": v["so1"]}), "admin": SDict({"min_rounds": v["so2"]})})}),
+        "schemes": ("des_crypt", "md5_crypt"), "handlers": ("<des_crypt>", "<md5_crypt>"), "categories": ("admin",),
+    })
+    it.run.ghost["v"] = v
+    return None
+
+
+def _ic_post(it, env):
+    res = it.static_items_req(it.resolve(env.lookup("result")))
+    got = {}
+    for item in res:
+        k, val = it.static_items_req(item) if not isinstance(item, tuple) else item
+        if k in got:
+            return False  # a slot exported twice
+        got[k] = it.resolve(val)
+    v = it.run.ghost["v"]
+    want_keys = {(None, None, "schemes"), (None, None, "default"), (None, None, "deprecated"), ("admin", None, "default"), ("admin", None, "deprecated"),
+                 (None, "des_crypt", "min_rounds"), (None, "des_crypt", "vary_rounds"), ("admin", "des_crypt", "min_rounds")}
+    if set(got) != want_keys:
+        return False
+    from pyvc.values import SList
+    ok_lists = isinstance(got[("admin", None, "deprecated")], SList) and len(got[("admin", None, "deprecated")].items) == 0 and isinstance(got[(None, None, "deprecated")], SList) and len(got[(None, None, "deprecated")].items) == 1
+    same = [it.to_zbool(it.truth(it.cmp_vals("==", got[k], v[n]))) for k, n in (((None, None, "default"), "d0"), (("admin", None, "default"), "d1"), ((None, "des_crypt", "min_rounds"), "so0"),
+                                                                                 ((None, "des_crypt", "vary_rounds"), "so1"), (("admin", "des_crypt", "min_rounds"), "so2"))]
+    return z3.And(z3.BoolVal(ok_lists), *same)
+
+
+for _resolve in (False, True):
+    CONTRACTS.append(Contract(
+        f"_CryptConfig.iter_config[resolve={_resolve}]", f"{C}::_CryptConfig.iter_config",
+        params={"self": Obj(cls=(C, "_CryptConfig")), "resolve": Const(_resolve)},
+        setup=_ic_setup,
+        ensures=[("every stored (category, scheme, option) slot is exported exactly once with its value -- including an explicitly empty per-category list -- and nothing else",
+                  _ic_post),
+                 ("the schemes item carries hasher objects when resolve is set, names otherwise",
+                  lambda it, env, _r=_resolve: z3.BoolVal([it.resolve(x) for x in it.static_items_req(it.resolve(dict((it.static_items_req(i) if not isinstance(i, tuple) else i) for i in it.static_items_req(it.resolve(env.lookup("result"))))[(None, None, "schemes")]))] == (["<des_crypt>", "<md5_crypt>"] if _r else ["des_crypt", "md5_crypt"])))],
+        descr="a configuration with global and per-category context options (one of them an empty list) and per-scheme options; symbolic values",
+    ))
+
+MUTANTS += [
+    ("iter_config: falsy option values are dropped from the export", C, "                try:\n                    value = context_options[key][cat]\n                except KeyError:  # noqa: PERF203\n                    pass\n                else:\n", "                value = context_options[key].get(cat)\n                if value:\n", "refute", "iter_config"),
+    ("iter_config: category scheme options exported under the default category", C, "                        yield (cat, scheme, key), kwds[key]", "                        yield (None, scheme, key), kwds[key]", "refute", "iter_config"),
+]
